@@ -49,7 +49,10 @@ class Runner:
         self.rig = rig
         self.reqs, self.impl = [], []
         self.last_head = {}
+        self.call_rem = {}        # thread -> remainder at the previous loop head of the call in progress
         self.spin = None
+        self.grew = None
+        self.iterated = {}
 
     def step(self, op):
         w = op.split()
@@ -63,9 +66,21 @@ class Runner:
                 key = (lt.info, chan_state(self.rig))
                 if w[0] == "iter" and int(w[1]) == t and self.last_head.get(t) == key:
                     self.spin = (t, lt.info[0])
+                # every completed iteration must strictly shorten the remainder (theorem
+                # iteration_raises_or_shortens / write_then_shorter_or_done) — whatever else changed meanwhile
+                prev = self.call_rem.get(t)
+                if prev is not None and prev[1] != len(self.reqs) and lt.info[0] >= prev[0] and not self.grew \
+                        and self.iterated.get(t):
+                    self.grew = (t, prev[0], lt.info[0])
+                self.call_rem[t] = (lt.info[0], len(self.reqs))
+                self.iterated[t] = False
                 self.last_head[t] = key
             else:
                 self.last_head.pop(t, None)
+                if lt.state == "idle":
+                    self.call_rem.pop(t, None)
+        if w[0] == "iter":
+            self.iterated[int(w[1])] = True
         return True
 
     def drain_thread(self, t, wake_dt=(0,), limit=400):
@@ -73,7 +88,7 @@ class Runner:
         waits = 0
         for _ in range(limit):
             lt = self.rig.threads[t]
-            if lt.state == "idle" or self.spin:
+            if lt.state == "idle" or self.spin or self.grew:
                 return
             if lt.state == "hold":
                 self.step("emit %d" % t)
@@ -92,6 +107,11 @@ class Runner:
 def judge(ctx, rig, run, case, total, tag):
     lt = rig.threads[0]
     sent = rig._bytes_by(0)
+    if run.grew:
+        ctx.fail("sendall-no-progress:remainder-not-shortened:" + tag, case,
+                 "thread %d: an iteration left the remainder at %d (was %d); send() returned a count <= 0 on a "
+                 "live channel" % (run.grew[0], run.grew[2], run.grew[1]))
+        return "spin"
     if run.spin:
         ctx.fail("sendall-no-progress:" + tag, case,
                  "loop head reached twice with remainder %d and unchanged channel state" % run.spin[1])
@@ -120,7 +140,8 @@ def grid(ctx, rng, batches):
                             continue
                         total = rng.choice(sizes)
                         peer_win = {"plenty": 100000, "zero": 0, "partial": max(total // 2, 1) if total > 1 else 0}[win_kind]
-                        peer_max = rng.choice([4096, 32768])
+                        # RAW peer-advertised maximum packet sizes (the channel-open path must clamp them)
+                        peer_max = rng.choice([0, 1, 63, 64, 65, 4095, 4096, 4096, 32768, 32768])
                         rig = lib_chan.Rig(32768, peer_win, peer_max, 2)
                         run = Runner(rig)
                         init = "init 32768 %d %d 2 0" % (peer_win, peer_max)
@@ -180,7 +201,7 @@ def random_part(ctx, rng, n, batches):
                 if w[0] == "sendall":
                     calls[int(w[1])] = (int(w[2]), rig._bytes_by(int(w[1])))
                 run.step(op)
-                if run.spin:
+                if run.spin or run.grew:
                     break
                 for t, (total, base) in list(calls.items()):
                     lt = rig.threads[t]
@@ -190,6 +211,10 @@ def random_part(ctx, rng, n, batches):
                             run.early = (t, total, rig._bytes_by(t) - base)
             case = {"in_window": in_win, "peer_window": peer_win, "peer_max_packet": peer_max, "threads": nthr,
                     "schedule": run.reqs[1:]}
+            if run.grew:
+                ctx.fail("sendall-no-progress:remainder-not-shortened:random", case,
+                         "thread %d: an iteration left the remainder at %d (was %d)"
+                         % (run.grew[0], run.grew[2], run.grew[1]))
             if run.spin:
                 c = rig.chan
                 tag = "closed" if c.closed else "eof_sent" if c.eof_sent else "open"
@@ -214,7 +239,7 @@ def run(ctx):
     import logging
     logging.getLogger("paramiko").addHandler(logging.NullHandler())
     logging.getLogger("paramiko").propagate = False
-    ctx.rule = ("grid: 10 half-closed states (open, shutdown_write, shutdown_read, close, peer EOF, peer CLOSE, "
+    ctx.rule = ("raw peer-advertised max packet sizes 0/1/63/64/65/4095/4096/32768 through _set_remote_channel; grid: 10 half-closed states (open, shutdown_write, shutdown_read, close, peer EOF, peer CLOSE, "
                 "transport lost, request failed, two combinations) × {blocking, non-blocking, timed} × window "
                 "{plenty, zero, partial} × {stdout, stderr} × event during the call {none, close, shutdown_write, "
                 "peer CLOSE, transport lost, window adjust, peer EOF} (events sampled 25% off the open/blocked "
